@@ -1,4 +1,5 @@
 import RavenModel.Model.SessionView
+import RavenModel.Model.Notify
 import RavenModel.Model.Plan
 import RavenModel.Model.Expunge
 import RavenModel.Model.MailInv
@@ -95,5 +96,35 @@ theorem old_expunge_notices_partial (s : SessionView.St) (d : Mail.Link → Bool
     (hs : s.srv = s.view ++ extra) (hx : ∀ l ∈ extra, d l = false) :
     SessionView.applicable s.view.length (SessionView.expungeNotices s d) = true :=
   (SessionView.expunge_known_partial s d extra hs hx).1
+
+/-! ## arrivals, NOOP and IDLE (`Model/Notify`) -/
+
+/-- C09.9  whatever arrived and whenever — before the session idled, while it idled, after DONE — and however often it
+idled, polled or was polled in between: after a NOOP the session has been told of exactly the messages there are. -/
+theorem noop_after_anything_tells_all (n : Nat) (es : List Notify.Ev) (h : ∀ e ∈ es, Notify.current e = true) :
+    (Notify.run (Notify.select n) (es ++ [.noop])).told = (Notify.run (Notify.select n) (es ++ [.noop])).srv := by
+  simp only [Notify.run, List.foldl_append, List.foldl_cons, List.foldl_nil]
+  exact Notify.noop_tells_all _ (Notify.inv_run es _ (Notify.inv_select n) h)
+
+/-- …which is false of a server whose IDLE stores its own counter in the session when it ends: a message that arrived
+between the last update and the IDLE is never announced (select 0; arrive; IDLE; DONE; NOOP: told 0 of 1). -/
+theorem idle_writeback_refuted :
+    (Notify.run (Notify.select 0) [.arrive, .idleBegin, .idleEndWriteBack, .noop]).told ≠
+    (Notify.run (Notify.select 0) [.arrive, .idleBegin, .idleEndWriteBack, .noop]).srv := by decide
+
+/-- non-vacuity: a history with arrivals on both sides of an IDLE -/
+example : (Notify.run (Notify.select 2) [.arrive, .idleBegin, .arrive, .idlePoll, .idleEnd, .arrive, .noop]).told = 5 := by decide
+
+/-- C09.9'  the code is the current machine, not the refuted one (plan regenerated from /repo on every run): `HandleIdle`
+assigns nothing in the session; `HandleNoop` and the command loop's `announceNewMessages` store the count they have just
+announced, after announcing it. -/
+theorem plan_idle_keeps_session_counters :
+    Plan.free (b!"set state.") (Plan.trace (b!"extension.HandleIdle")) = true ∧
+    (Plan.trace (b!"extension.HandleIdle")).contains (b!"reply untagged") = true ∧
+    Plan.before (Plan.lastIdx (· = (b!"reply untagged")) (Plan.trace (b!"extension.HandleNoop")))
+      (Plan.idx (b!"set state.LastMessageCount = currentCount") (Plan.trace (b!"extension.HandleNoop"))) = true ∧
+    Plan.before (Plan.idx (b!"reply untagged") (Plan.trace (b!"server.announceNewMessages")))
+      (Plan.idx (b!"set state.LastMessageCount = count") (Plan.trace (b!"server.announceNewMessages"))) = true := by
+  decide
 
 end Raven.Props.C09
